@@ -1,10 +1,11 @@
 (* Props/C01.v — conversions preserve the tensor. Only statements, `exact`, Print Assumptions. *)
 From Coq Require Import List Arith Bool ZArith Ring.
 From PV Require Import Base.Index Base.Perm Base.Sum Np.Array Model.Sparse Model.Repr Model.C07Ops Model.C01Conv
-  Model.C01Unique Model.C01Coo Model.C01Ttm Model.C01W3 Proofs.C01Proofs Proofs.C01Kruskal Proofs.C01Tucker Proofs.C01Unique
-  Proofs.C01Converse Proofs.C01Coo Proofs.C01Ttm Proofs.C01W3.
+  Model.C01Unique Model.C01Coo Model.C01Ttm Model.C01W3 Model.C01W4 Proofs.C01Proofs Proofs.C01Kruskal Proofs.C01Tucker Proofs.C01Unique
+  Proofs.C01Converse Proofs.C01Coo Proofs.C01Ttm Proofs.C01W3 Proofs.C01W4.
 From Coq Require Import Permutation.
-From PV Require Np.NpZ Np.NpZ2 Gen.GenUtils Gen.GenUtils2 Proofs.NpZProofs Proofs.C01GenBridge.
+From PV Require Np.NpZ Np.NpZ2 Np.NpZ3 Gen.GenUtils Gen.GenUtils2 Gen.GenKernels Gen.GenMethods Proofs.NpZProofs Proofs.C01GenBridge Proofs.C01GenKr
+  Proofs.C01GenMeth Proofs.C01GenReq.
 Import ListNotations.
 
 Section C01.
@@ -95,13 +96,24 @@ Theorem C01_kruskal_any_split : forall (K : ktensor V) isplit,
     forall i, den_dense v0 D i = den_k v0 v1 vadd vmul K i.
 Proof. exact (ktensor_full_at_correct V v0 v1 vadd vmul vsub vopp Vring). Qed.
 
-(* ... and ktensor.full as the code is, for every N >= 1: the single-mode branch (factor @ weights) and, for N >= 2, the
-   split point the code chooses (min_split_dims) *)
+(* ... and ktensor.full as the code is (since /repo d9f07bf), for every N >= 1 and EVERY rank: no component -> the zero tensor
+   (the branch the repair of N-C01-1 added), the single-mode branch (factor @ weights) and, for N >= 2, the split point the
+   code chooses (min_split_dims) *)
 Theorem C01_kruskal : forall K : ktensor V, rows_ok V (krank K) (kfactors K) -> 1 <= length (kfactors K) ->
-  exists D, ktensor_full_impl v0 vadd vmul K = Some D /\ wf_dense D /\ dshape D = kshape K /\
+  exists D, ktensor_full_code v0 vadd vmul K = Some D /\ wf_dense D /\ dshape D = kshape K /\
     (forall i, den_dense v0 D i = den_k v0 v1 vadd vmul K i) /\
     D = ktensor_full_spec v0 v1 vadd vmul K.
-Proof. exact (ktensor_full_correct V v0 v1 vadd vmul vsub vopp Vring). Qed.
+Proof. exact (ktensor_full_code_correct V v0 v1 vadd vmul vsub vopp Vring). Qed.
+
+(* R = 0, unconditional (no hypothesis on the factor matrices or on N): the result is the zero tensor of the shape the
+   factor matrices give, which is what a Kruskal tensor without components denotes *)
+Theorem C01_kruskal_rank0 : forall K : ktensor V, krank K = 0 ->
+  ktensor_full_code v0 vadd vmul K = Some (dense_zeros v0 (kshape K)) /\
+  wf_dense (dense_zeros v0 (kshape K)) /\
+  (forall i, den_dense v0 (dense_zeros v0 (kshape K)) i = den_k v0 v1 vadd vmul K i) /\
+  (forall i, den_k v0 v1 vadd vmul K i = v0) /\
+  dense_zeros v0 (kshape K) = ktensor_full_spec v0 v1 vadd vmul K.
+Proof. exact (ktensor_full_code_rank0 V v0 v1 vadd vmul). Qed.
 
 (* Tucker -> dense: multiplying the core by U_0, U_1, ... mode by mode (each product defined on subscripts:
    Y[i] = sum_j U[i_n, j] X[i with n := j]) yields den_t; result well-formed with shape (rows of U_n)_n *)
@@ -130,6 +142,7 @@ Print Assumptions C01_request_forms.
 Print Assumptions C01_sptenmat.
 Print Assumptions C01_kruskal_any_split.
 Print Assumptions C01_kruskal.
+Print Assumptions C01_kruskal_rank0.
 Print Assumptions C01_tucker.
 Print Assumptions C01_sum.
 Print Assumptions C01_sum_parts.
@@ -152,10 +165,12 @@ Proof. reflexivity. Qed.
 
 Example C01_example_kruskal :
   let K := mkK [2; 3]%Z [[[1; 2]; [3; 4]]; [[5; 6]; [7; 8]; [9; 1]]; [[1; 0]; [2; 1]; [0; 3]; [1; 1]]]%Z in
-  ktensor_full_impl 0%Z Z.add Z.mul K = Some (ktensor_full_spec 0%Z 1%Z Z.add Z.mul K) /\
+  ktensor_full_code 0%Z Z.add Z.mul K = Some (ktensor_full_spec 0%Z 1%Z Z.add Z.mul K) /\
   ktensor_full_at 0%Z Z.add Z.mul K 2 = ktensor_full_at 0%Z Z.add Z.mul K 1 /\
   den_k 0%Z 1%Z Z.add Z.mul K [1; 2; 3] = 66%Z /\ min_split_dims [2; 3; 4] = Some 2 /\
-  ktensor_full_impl 0%Z Z.add Z.mul (mkK [2; 3]%Z [[[1; 2]; [3; 4]; [5; 6]]%Z]) = Some (mkDense [3] [8; 18; 28]%Z).
+  ktensor_full_code 0%Z Z.add Z.mul (mkK [2; 3]%Z [[[1; 2]; [3; 4]; [5; 6]]%Z]) = Some (mkDense [3] [8; 18; 28]%Z) /\
+  (* no component: 3 x 2 zeros (three rows without columns, two rows without columns) *)
+  ktensor_full_code 0%Z Z.add Z.mul (mkK [] [[[]; []; []]; [[]; []]]) = Some (mkDense [3; 2] [0; 0; 0; 0; 0; 0]%Z).
 Proof. repeat split; reflexivity. Qed.
 
 Example C01_example_sum :
@@ -385,7 +400,7 @@ Proof. exact (ktensor_to_tenmat_correct V v0 v1 vadd vmul vsub vopp Vring). Qed.
 (* ktensor.double / ttensor.double / sumtensor.double = full().double(): the arrays of C01_kruskal / C01_tucker_impl / C01_sum *)
 Theorem C01_double_aliases :
   (forall K : ktensor V, rows_ok V (krank K) (kfactors K) -> 1 <= length (kfactors K) ->
-     ktensor_double v0 vadd vmul K = ktensor_full_impl v0 vadd vmul K /\
+     ktensor_double v0 vadd vmul K = ktensor_full_code v0 vadd vmul K /\
      ktensor_double v0 vadd vmul K = Some (ktensor_full_spec v0 v1 vadd vmul K)) /\
   (forall T : ttensor V, wf_dense (tcore T) -> length (dshape (tcore T)) = length (tfactors T) ->
      ttensor_double v0 vadd vmul T = ttensor_full_impl v0 vadd vmul T /\
@@ -513,3 +528,196 @@ Example C01_example_generated :
     = Some [7; 0] /\
   PV.Gen.GenUtils.tt_ind2sub [4; 2]%Z [7; 0]%Z NpZ.OrdF = NpZ.Ok [[3; 1]; [0; 0]]%Z.
 Proof. repeat split; reflexivity. Qed.
+
+(* ---------------------------------------------------------------------------------------------------------
+   Fourth wave — ktensor.full tied to the translator: the two Khatri-Rao products inside ktensor.full are calls of
+   pyttb.khatrirao(..., reverse=True); Gen/GenKernels.v holds the function GENERATED from pyttb/khatrirao.py on every run
+   (over numpy integer matrices). An edit of khatrirao.py in /repo breaks these proofs. *)
+
+(* on non-empty integer matrices with R >= 1 columns each, the generated khatrirao(reverse=True) returns exactly what the
+   hand model khatrirao_rev of C01_kruskal_any_split / C01_kruskal returns; on matrices WITHOUT columns it raises (the
+   reason for N-C01-1 and for the `ncomponents == 0` branch of /repo d9f07bf) *)
+Theorem C01_khatrirao_generated :
+  (forall (R : nat) (Ms : list (list (list Z))), Ms <> [] -> 1 <= R -> C01GenKr.mats_ok R Ms ->
+     exists P, khatrirao_rev Z.mul Ms = Some P /\ PV.Gen.GenKernels.khatrirao Ms true = NpZ.Ok P) /\
+  (forall Ms : list (list (list Z)), C01GenKr.mats_ok 0 Ms -> PV.Gen.GenKernels.khatrirao Ms true = NpZ.Err).
+Proof. exact (conj C01GenKr.khatrirao_generated_c01 C01GenKr.khatrirao_generated_rank0). Qed.
+
+(* ktensor.full with the GENERATED khatrirao in place of the hand model (C01GenKr.ktensor_full_gen: rank-0 branch, single-mode
+   branch, min_split_dims, generated khatrirao on both sides of the split, (L * w) @ R.T, F-order reshape) returns the
+   specified dense tensor for every integer Kruskal tensor with N >= 1 modes of size >= 1 and EVERY rank (0 included);
+   without the rank-0 branch the same route gives no answer for R = 0, N >= 2 *)
+Theorem C01_kruskal_generated :
+  (forall K : ktensor Z, rows_ok Z (krank K) (kfactors K) -> Forall (fun A => A <> []) (kfactors K) -> 1 <= length (kfactors K) ->
+     C01GenKr.ktensor_full_gen K = ktensor_full_code 0%Z Z.add Z.mul K /\
+     C01GenKr.ktensor_full_gen K = Some (ktensor_full_spec 0%Z 1%Z Z.add Z.mul K)) /\
+  (forall K : ktensor Z, krank K = 0 -> rows_ok Z 0 (kfactors K) -> Forall (fun A => A <> []) (kfactors K) ->
+     2 <= length (kfactors K) -> C01GenKr.ktensor_full_gen_norank0 K = None).
+Proof. exact (conj C01GenKr.ktensor_full_gen_correct C01GenKr.ktensor_full_gen_norank0_fails). Qed.
+
+Print Assumptions C01_khatrirao_generated.
+Print Assumptions C01_kruskal_generated.
+
+Example C01_example_kruskal_generated :
+  let K := mkK [2; 3]%Z [[[1; 2]; [3; 4]]; [[5; 6]; [7; 8]; [9; 1]]; [[1; 0]; [2; 1]; [0; 3]; [1; 1]]]%Z in
+  C01GenKr.ktensor_full_gen K = Some (ktensor_full_spec 0%Z 1%Z Z.add Z.mul K) /\
+  PV.Gen.GenKernels.khatrirao [[[1; 2]; [3; 4]]; [[5; 6]; [7; 8]; [9; 1]]]%Z true
+    = NpZ.Ok [[5; 12]; [15; 24]; [7; 16]; [21; 32]; [9; 2]; [27; 4]]%Z /\
+  C01GenKr.ktensor_full_gen (mkK [] [[[]; []; []]; [[]; []]]) = Some (mkDense [3; 2] [0; 0; 0; 0; 0; 0]%Z) /\
+  C01GenKr.ktensor_full_gen_norank0 (mkK [] [[[]; []; []]; [[]; []]]) = None.
+Proof. exact C01GenKr.ktensor_full_gen_example. Qed.
+
+(* ---------------------------------------------------------------------------------------------------------
+   Fourth wave — sumtensor.full AS EXECUTED (Model/C01W4.v sum_full_code): `result = parts[0].full(); for part in parts[1:]:
+   result += part`, where tensor.__add__ densifies the part by the part's own full() (tensor: itself; sptensor: scatter;
+   ktensor: rank-0 branch / single-mode branch / Khatri-Rao split; ttensor with a dense core: tensor.ttm mode by mode; ttensor
+   with a SPARSE core: sptensor.ttm in mode 0, tensor.ttm afterwards), asserts equal shapes and adds the data arrays. For every
+   non-empty list of admissible parts of one shape (part4_ok: what the part constructors guarantee) it equals the specified
+   sum_full of C01_sum on the denoted parts, sumtensor.double gives the same array, and the result is well-formed, of that
+   shape, and holds the sum of what the parts denote at every position. A part whose densification has another shape is
+   rejected (the assert of tenfun_binary). *)
+Section C01w4.
+Context {V : Type} (v0 v1 : V) (vadd vmul vsub : V -> V -> V) (vopp : V -> V) (isz : V -> bool).
+Hypothesis Vring : ring_theory v0 v1 vadd vmul vsub vopp (@eq V).
+Hypothesis isz_spec : forall v, isz v = true <-> v = v0.
+
+Theorem C01_sum_impl : forall s (parts : list (part4 V)), parts <> [] -> Forall (part4_ok V isz s) parts ->
+  sum_full_code v0 vadd vmul isz parts = sum_full v0 v1 vadd vmul (map (part4_spec v0) parts) /\
+  sum_double_code v0 vadd vmul isz parts = sum_full_code v0 vadd vmul isz parts /\
+  Forall (part_ok V v0 v1 vadd vmul s) (map (part4_spec v0) parts) /\
+  exists R, sum_full_code v0 vadd vmul isz parts = Some R /\ wf_dense R /\ dshape R = s /\
+    forall i, inb s i = true ->
+      den_dense v0 R i = den_sum v0 vadd (map (part_den v0 v1 vadd vmul) (map (part4_spec v0) parts)) i.
+Proof. exact (sum_full_code_correct V v0 v1 vadd vmul vsub vopp isz Vring isz_spec). Qed.
+
+(* the multi-step history tensor -> to_tenmat(r, c) -> to_tensor -> to_sptensor -> to_sptenmat(r2, c2) (with the sorting
+   constructor) -> to_sptensor -> full, for every well-formed tensor and every two ordered mode partitions: every
+   intermediate object is well-formed and reports the number of nonzero entries of the tensor, the sparse matricisation holds
+   T[i] at tm_pos i, and the last step returns the tensor the history started from *)
+Theorem C01_chain : forall (T : dense V) r c r2 c2, wf_dense T ->
+  is_perm (r ++ c) (length (dshape T)) -> is_perm (r2 ++ c2) (length (dshape T)) ->
+  let nz := length (filter (fun v => negb (isz v)) (ddata T)) in
+  exists M M2,
+    to_tenmat v0 T r c = Some M /\ tenmat_to_tensor v0 M = T /\
+    wf_sp isz (to_sptensor v0 isz (tenmat_to_tensor v0 M)) /\ nnz (to_sptensor v0 isz (tenmat_to_tensor v0 M)) = nz /\
+    to_sptenmat_sorted vadd isz (to_sptensor v0 isz (tenmat_to_tensor v0 M)) r2 c2 = Some M2 /\
+    ssorted (stm_subs M2) /\ wf_sp isz (stm_sp M2) /\ length (stm_subs M2) = nz /\
+    (forall i, inb (dshape T) i = true -> den_sptenmat v0 M2 i = den_dense v0 T i) /\
+    wf_sp isz (sptenmat_to_sptensor M2) /\ nnz (sptenmat_to_sptensor M2) = nz /\
+    full v0 (sptenmat_to_sptensor M2) = T.
+Proof. exact (chain_correct V v0 v1 vadd vmul vsub vopp isz Vring isz_spec). Qed.
+
+Theorem C01_sum_impl_shape_guard : forall (a : dense V) (q : part4 V) b,
+  part4_full v0 vadd vmul isz q = Some b -> dshape a <> dshape b -> iadd_part v0 vadd vmul isz (Some a) q = None.
+Proof. exact (sum_full_code_shape_mismatch V v0 vadd vmul isz). Qed.
+End C01w4.
+
+Print Assumptions C01_sum_impl.
+Print Assumptions C01_sum_impl_shape_guard.
+Print Assumptions C01_chain.
+
+Example C01_example_sum_impl :
+  (* 2x2: a dense part, a sparse part (stored in reversed order), a rank-0 Kruskal part, a rank-1 Kruskal part, a Tucker part
+     with a 1x1 sparse core *)
+  let parts := [QD (mkDense [2; 2] [1; 2; 3; 4]%Z); QS (mkSp [2; 2] [[1; 1]; [0; 1]] [5; 7]%Z);
+                QK (mkK [] [[[]; []]; [[]; []]]); QK (mkK [2%Z] [[[1]; [2]]; [[3]; [1]]]%Z);
+                QTS (mkSp [1; 1] [[0; 0]] [2%Z]) [[[1]; [0]]; [[1]; [1]]]%Z] in
+  sum_full_code 0%Z Z.add Z.mul (Z.eqb 0) parts = Some (mkDense [2; 2] [9; 14; 14; 13]%Z) /\
+  sum_full 0%Z 1%Z Z.add Z.mul (map (part4_spec 0%Z) parts) = Some (mkDense [2; 2] [9; 14; 14; 13]%Z) /\
+  iadd_part 0%Z Z.add Z.mul (Z.eqb 0) (Some (mkDense [2; 2] [1; 2; 3; 4]%Z)) (QD (mkDense [4] [1; 2; 3; 4]%Z)) = None /\
+  (* the chain on a 2x3 tensor: rows = mode 1, then the sparse matricisation with everything in the columns *)
+  let T := mkDense [2; 3] [0; 5; 0; 0; 7; 1]%Z in
+  option_map (fun M => ddata (tm_data M)) (to_tenmat 0%Z T [1] [0]) = Some [0; 0; 7; 5; 0; 1]%Z /\
+  option_map (fun M => (stm_subs M, stm_vals M)) (to_sptenmat_sorted Z.add (Z.eqb 0) (to_sptensor 0%Z (Z.eqb 0) T) [] [1; 0])
+    = Some ([[0; 2]; [0; 3]; [0; 5]], [7; 5; 1]%Z) /\
+  option_map (fun M => full 0%Z (sptenmat_to_sptensor M)) (to_sptenmat_sorted Z.add (Z.eqb 0) (to_sptensor 0%Z (Z.eqb 0) T) [] [1; 0])
+    = Some T.
+Proof. repeat split; vm_compute; reflexivity. Qed.
+
+(* ---------------------------------------------------------------------------------------------------------
+   Fourth wave — what the objects REPORT, and the branch conditions of ktensor.full, tied to the translator: Gen/GenMethods.v
+   holds sptensor.nnz, sptensor.ndims, ktensor.ncomponents, ktensor.ndims GENERATED from pyttb/sptensor.py / ktensor.py on
+   every run (`self` = the record of the fields the method reads; sptz_of S = subscript array and shape of S). *)
+
+(* the generated nnz / ndims of any in-bounds coordinate list of an N >= 1 way shape are the model's nnz and N; for the result
+   of tensor.to_sptensor the reported nonzero count is the number of nonzero entries of the dense tensor *)
+Theorem C01_reports_generated : forall (V : Type) (v0 : V) (isz : V -> bool),
+  (forall (S : sparse V) (vals : NpZ.vec), Forall (fun j => inb (sshape S) j = true) (ssubs S) -> 1 <= length (sshape S) ->
+     PV.Gen.GenMethods.sptensor_nnz (C01GenMeth.sptz_of S vals) = NpZ.Ok (Z.of_nat (nnz S)) /\
+     PV.Gen.GenMethods.sptensor_ndims (C01GenMeth.sptz_of S vals) = NpZ.Ok (Z.of_nat (length (sshape S)))) /\
+  (forall (T : dense V) (vals : NpZ.vec), wf_dense T -> 1 <= length (dshape T) ->
+     PV.Gen.GenMethods.sptensor_nnz (C01GenMeth.sptz_of (to_sptensor v0 isz T) vals)
+       = NpZ.Ok (Z.of_nat (length (filter (fun v => negb (isz v)) (ddata T))))).
+Proof. exact (fun V v0 isz => conj (@C01GenMeth.sptensor_reports_generated V) (@C01GenMeth.to_sptensor_nnz_generated V v0 isz)). Qed.
+
+(* ktensor.full with `self.ncomponents == 0` / `self.ndims == 1` read through the GENERATED properties and both Khatri-Rao
+   products through the GENERATED khatrirao: the specified dense tensor, every integer Kruskal tensor, every rank *)
+Theorem C01_kruskal_generated_methods :
+  (forall K : ktensor Z, C01GenMeth.ktensor_full_gen2 K = C01GenKr.ktensor_full_gen K) /\
+  (forall K : ktensor Z, rows_ok Z (krank K) (kfactors K) -> Forall (fun A => A <> []) (kfactors K) -> 1 <= length (kfactors K) ->
+     C01GenMeth.ktensor_full_gen2 K = Some (ktensor_full_spec 0%Z 1%Z Z.add Z.mul K)).
+Proof. exact (conj C01GenMeth.ktensor_full_gen2_eq C01GenMeth.ktensor_full_gen2_correct). Qed.
+
+Print Assumptions C01_reports_generated.
+Print Assumptions C01_kruskal_generated_methods.
+
+Example C01_example_generated_methods :
+  PV.Gen.GenMethods.sptensor_nnz (C01GenMeth.sptz_of (to_sptensor 0%Z (Z.eqb 0) (mkDense [2; 3] [0; 5; 0; 0; 7; 1]%Z)) []) = NpZ.Ok 3%Z /\
+  PV.Gen.GenMethods.sptensor_ndims (C01GenMeth.sptz_of (to_sptensor 0%Z (Z.eqb 0) (mkDense [2; 3] [0; 5; 0; 0; 7; 1]%Z)) []) = NpZ.Ok 2%Z /\
+  C01GenMeth.ktensor_full_gen2 (mkK [2; 3]%Z [[[1; 2]; [3; 4]]; [[5; 6]; [7; 8]; [9; 1]]]%Z)
+    = Some (mkDense [2; 3] [46; 102; 62; 138; 24; 66]%Z) /\
+  C01GenMeth.ktensor_full_gen2 (mkK [] [[[]; []; []]; [[]; []]]) = Some (mkDense [3; 2] [0; 0; 0; 0; 0; 0]%Z) /\
+  C01GenMeth.ktensor_full_gen2 (mkK [2; 3]%Z [[[1; 2]; [3; 4]; [5; 6]]%Z]) = Some (mkDense [3] [8; 18; 28]%Z).
+Proof. exact C01GenMeth.c01_gen_meth_example. Qed.
+
+(* ---------------------------------------------------------------------------------------------------------
+   Fourth wave — the matricisation REQUEST theorems over the GENERATED gather_wrap_dims (Gen/GenUtils2.v): for every admissible
+   request (rdims only, cdims only, both, the fc / bc / t conventions) the generated function answers Ok (r, c) with (r, c) an
+   ordered partition of the modes, and tensor.to_tenmat / sptensor.to_sptenmat along that answer obey the position law and convert
+   back to the identical object; a request the generated function rejects yields no object. *)
+Theorem C01_tenmat_request_generated : forall (V : Type) (v0 : V) (T : dense V) rd cd cy,
+  wf_dense T -> request_ok (length (dshape T)) rd cd ->
+  exists r c M,
+    PV.Gen.GenUtils2.gather_wrap_dims (Z.of_nat (length (dshape T))) (option_map C01GenBridge.zv rd) (option_map C01GenBridge.zv cd)
+      (option_map C01GenBridge.cyc_gen cy) = NpZ.Ok (C01GenBridge.zv r, C01GenBridge.zv c) /\
+    is_perm (r ++ c) (length (dshape T)) /\
+    to_tenmat_req v0 T rd cd cy = Some M /\ to_tenmat v0 T r c = Some M /\
+    tm_r M = r /\ tm_c M = c /\ tm_tshape M = dshape T /\
+    wf_dense (tm_data M) /\ dshape (tm_data M) = [size (pick 0 r (dshape T)); size (pick 0 c (dshape T))] /\
+    (forall i, inb (dshape T) i = true -> den_tenmat v0 M i = den_dense v0 T i) /\
+    tenmat_to_tensor v0 M = T.
+Proof. exact (@C01GenReq.to_tenmat_request_generated). Qed.
+
+Theorem C01_sptenmat_request_generated : forall (V : Type) (v0 : V) (isz : V -> bool) (S : sparse V) rd cd cy,
+  request_ok (length (sshape S)) rd cd -> Forall (fun j => inb (sshape S) j = true) (ssubs S) ->
+  exists r c M,
+    PV.Gen.GenUtils2.gather_wrap_dims (Z.of_nat (length (sshape S))) (option_map C01GenBridge.zv rd) (option_map C01GenBridge.zv cd)
+      (option_map C01GenBridge.cyc_gen cy) = NpZ.Ok (C01GenBridge.zv r, C01GenBridge.zv c) /\
+    is_perm (r ++ c) (length (sshape S)) /\
+    to_sptenmat_req S rd cd cy = Some M /\ to_sptenmat S r c = Some M /\
+    stm_r M = r /\ stm_c M = c /\ stm_tshape M = sshape S /\ stm_vals M = svals S /\ length (stm_subs M) = nnz S /\
+    (wf_sp isz S -> wf_sp isz (stm_sp M)) /\
+    (forall i, inb (sshape S) i = true -> den_sptenmat v0 M i = den_sp v0 S i) /\
+    sptenmat_to_sptensor M = S.
+Proof. exact (@C01GenReq.to_sptenmat_request_generated). Qed.
+
+Theorem C01_request_rejected_generated : forall (V : Type) (v0 : V) (T : dense V) (S : sparse V) rd cd cy,
+  (PV.Gen.GenUtils2.gather_wrap_dims (Z.of_nat (length (dshape T))) (option_map C01GenBridge.zv rd) (option_map C01GenBridge.zv cd)
+      (option_map C01GenBridge.cyc_gen cy) = NpZ.Err <-> gather_wrap_dims (length (dshape T)) rd cd cy = None) /\
+  (PV.Gen.GenUtils2.gather_wrap_dims (Z.of_nat (length (dshape T))) (option_map C01GenBridge.zv rd) (option_map C01GenBridge.zv cd)
+      (option_map C01GenBridge.cyc_gen cy) = NpZ.Err -> to_tenmat_req v0 T rd cd cy = None) /\
+  (PV.Gen.GenUtils2.gather_wrap_dims (Z.of_nat (length (sshape S))) (option_map C01GenBridge.zv rd) (option_map C01GenBridge.zv cd)
+      (option_map C01GenBridge.cyc_gen cy) = NpZ.Err -> to_sptenmat_req S rd cd cy = None).
+Proof. exact (@C01GenReq.request_rejected_generated). Qed.
+
+Print Assumptions C01_tenmat_request_generated.
+Print Assumptions C01_sptenmat_request_generated.
+Print Assumptions C01_request_rejected_generated.
+
+Example C01_example_request_generated :
+  let T := mkDense [2; 3; 2] [1; 2; 3; 4; 5; 6; 7; 8; 9; 10; 11; 12]%Z in
+  PV.Gen.GenUtils2.gather_wrap_dims 3%Z (Some [1%Z]) None (Some NpZ2.CycBC) = NpZ.Ok ([1%Z], [0; 2]%Z) /\
+  option_map (fun M => (tm_r M, tm_c M, ddata (tm_data M))) (to_tenmat_req 0%Z T (Some [1]) None (Some CycBC))
+    = Some ([1], [0; 2], [1; 3; 5; 2; 4; 6; 7; 9; 11; 8; 10; 12]%Z) /\
+  PV.Gen.GenUtils2.gather_wrap_dims 3%Z None None None = NpZ.Err /\ to_tenmat_req 0%Z T None None None = None.
+Proof. exact C01GenReq.c01_gen_req_example. Qed.
